@@ -17,7 +17,7 @@ PROPERTY = "C03"
 
 META = {
     "bounds": {
-        "quick": "programs `*= p0; .db v0; <sequence>`: all sequences of <= 2 statements over {db,dw,dl,pointer,lda.w #,sta.l,nop,.ascii,.incbin,label,*= rom,@= rom,@= ram,*= ram}, all sequences of 3 over {dw,*= rom,@= rom,@= ram,label}, 6 wrappers (block, named scope, macro application, 2-iteration loop, if/else) x 3 bodies; LoROM and HiROM, a `.map` user mapping for the short sequences; every position operand and value symbolic",
+        "quick": "programs `*= p0; .db v0; <sequence>`: all sequences of <= 2 statements over {db,dw,dl,pointer,lda.w #,sta.l,nop,.ascii,.incbin,label,*= rom,@= rom,@= ram,*= ram}, all sequences of 3 over {dw,*= rom,@= rom,@= ram,label}, 9 wrappers (block, named scope, macro application, 2-iteration loop, if/else, `*= hole + i * stride` in a 3-iteration loop, `*= param + 1` in a macro applied 3 times, both combined) x 3 bodies; LoROM and HiROM, a `.map` user mapping for the short sequences; every position operand and value symbolic",
         "thorough": "all sequences of <= 3 statements over the full alphabet + VERIF_SEED-drawn 300 sequences of 4-6 statements with nested wrappers; three mappings",
     },
     "outside": ["instructions with inferred width (C01/C02)", ".include_ips (C13)", "programs that leave the mapped ROM range (assembly may be rejected)", "*= operands below the bank window"],
@@ -75,6 +75,13 @@ def build(kinds, wrapper=None):
         return prog + [("for", "i", 2, body), ("db", "v0")]
     if wrapper == "if":
         return prog + [("if", 1, body, [("nop",)]), ("if", 0, [("nop",)], body)]
+    if wrapper == "for-expr":
+        # compound position operands built from the loop variable / a macro parameter (one expression node, several expansions)
+        return prog + [("for", "i", 3, [("starx", "p1", "i", 0x40, "rom")] + body), ("db", "v0")]
+    if wrapper == "macro-expr":
+        return prog + [("macrop", "mp", "a", [("starp", "a", 1, "rom")] + body), ("applyp", "mp", "p1"), ("dw", "v0"), ("applyp", "mp", "p2"), ("applyp", "mp", "p3"), ("db", "v0")]
+    if wrapper == "macro-expr-in-for":
+        return prog + [("macrop", "mp", "a", [("starp", "a", 0x10, "rom")] + body), ("for", "i", 2, [("applyp", "mp", "p1"), ("starx", "p2", "i", 0x20, "rom"), ("db", "v0")])]
     if wrapper == "nested":
         return prog + [("block", [("scope", "ns", body), ("for", "i", 2, [("block", body[:1])])]), ("db", "v0")]
     raise ValueError(wrapper)
@@ -98,8 +105,10 @@ def jobs(tier, seed):
                 continue
             out.append({"id": f"{rom}/seq/{'+'.join(s) or 'empty'}", "rom": rom, "kinds": list(s), "wrapper": None})
         bodies = [["dw"], ["dw", "star", "db"], ["at-ram", "dl"], ["label", "imm"]]
-        for w in ("block", "scope", "macro", "macro2", "for", "if", "nested"):
+        for w in ("block", "scope", "macro", "macro2", "for", "if", "nested", "for-expr", "macro-expr", "macro-expr-in-for"):
             for b in bodies:
+                if w.endswith(("-expr", "-in-for")) and any(k in ("star", "at-ram", "label") for k in b):
+                    continue
                 if rom == "map" and len(b) > 1:
                     continue
                 out.append({"id": f"{rom}/{w}/{'+'.join(b)}", "rom": rom, "kinds": b, "wrapper": w})
@@ -128,6 +137,12 @@ def run(spec, cx):
             cx.assume(L.in_window(g, t))
         else:
             cx.assume(z3.And(L.is_ram(g, t), (t & 0xFFFF) <= 0xFF00))
+    # compound operands (`*= hole + i * stride`, `*= param + 1`): the computed address must be a valid position too
+    dry = L.Layout(spec["rom"])
+    SK.walk(prog, dry, cx.t)
+    for t, kind in dry.positions:
+        if kind == "rom" and not (z3.is_const(t) and t.decl().kind() == z3.Z3_OP_UNINTERPRETED):
+            cx.assume(L.in_window(g, t))
     src = SK.render(prog) + "\n"
     if spec["rom"] == "map":
         src = L.MAP_SOURCE + src
